@@ -461,11 +461,19 @@ func RunCheck(property string, level string, assumptions []string, parts []Part)
 	if len(samples) == 0 {
 		samples = append(samples, "none")
 	}
-	var rules []string
+	// one entry per distinct rule, naming the parts that use it
+	var rules, ruleOrder []string
+	byRule := map[string][]string{}
 	for _, r := range reports {
 		if r.Rule != "" {
-			rules = append(rules, r.Name+": "+r.Rule)
+			if _, ok := byRule[r.Rule]; !ok {
+				ruleOrder = append(ruleOrder, r.Rule)
+			}
+			byRule[r.Rule] = append(byRule[r.Rule], r.Name)
 		}
+	}
+	for _, ru := range ruleOrder {
+		rules = append(rules, strings.Join(byRule[ru], ", ")+": "+ru)
 	}
 	cov := map[string]interface{}{
 		"states": states, "transitions": trans, "traces_validated_against_impl": validated,
